@@ -123,6 +123,26 @@ CommitOK == bad = ""
 \* C07 inside the transaction
 ReadYourWrites == Alive => \A k \in Keys : Get(s, k) = ref[k]
 ScanYourWrites == Alive => Scan(s) = [i \in 1..Len(RefListing(ref)) |-> RefListing(ref)[i][1]]
+\* C08 inside the transaction: seek reports existence and stands on the key or, for an absent key, on an immediate
+\* neighbour; iterating from there yields every later entry in order
+SeekYourWrites ==
+    Alive => \A k \in Keys :
+        LET r == Seek(s, k)
+            present == {x \in Keys : ref[x] # 0}
+            below == {x \in present : x < k}
+            above == {x \in present : x > k}
+            nbrs == (IF below = {} THEN {} ELSE {CHOOSE x \in below : \A y \in below : y <= x})
+                    \cup (IF above = {} THEN {} ELSE {CHOOSE x \in above : \A y \in above : y >= x})
+            lst == SeekList(s, k)
+            cur == IF lst = <<>> THEN 0 ELSE lst[1]
+            from(c) == LET ks == {x \in present : x >= c}
+                           kth(i) == CHOOSE x \in ks : Cardinality({y \in ks : y < x}) = i - 1
+                       IN  [i \in 1..Cardinality(ks) |-> kth(i)]
+        IN  /\ r.exact <=> ref[k] # 0
+            /\ IF ref[k] # 0 THEN cur = k
+               ELSE IF present = {} THEN cur = 0
+               ELSE cur \in nbrs
+            /\ cur # 0 => lst = from(cur)
 \* the nodes' own data stay sorted (the binary searches of the code assume it)
 NodesSorted == \A i \in 1..Len(s.nodes) : s.nodes[i].deleted \/ IsSorted(s.nodes[i].keys)
 =============================================================================
